@@ -196,6 +196,23 @@ def check(ctx: Ctx, col: Collector, tier: str) -> None:
                     n += 1
                     if not adds:
                         probs.append(f"the {want.split('.')[1]} inferred for a returned {cls} is not added to the collection")
+            # a conditional expression whose branch is again a conditional expression: every leaf is a value the function can return
+            inner = Obj("ConditionalExpr", (("if_expr", Obj("StrExpr", (("value", Sym("s")),))), ("else_expr", Obj("FloatExpr", (("value", Sym("f")),)))))
+            cond = Obj("ConditionalExpr", (("if_expr", Obj("IntExpr", (("value", Sym("i")),))), ("else_expr", inner)))
+            leaves = set()
+            for o in run_body(iit2, node2, entry2.clone(), Obj("ReturnStmt", (("expr", cond),))):
+                if o.kind == "raise":
+                    continue
+                got = {x.args[0].get("name").v for x in new_effects(o, entry2) if x.kind == "mutate" and x.target.endswith((".add", ".append")) and x.args
+                       and isinstance(x.args[0], Obj) and x.args[0].cls == "sds.NamedType" and isinstance(x.args[0].get("name"), Const)}
+                leaves = leaves | got if not leaves else leaves & got if got else leaves
+            keyn = f"{key0}::nested-conditional"
+            if leaves >= {"int", "str", "float"}:
+                col.ok("C07.INFER-COLLECT", keyn, repo.loc(VISITOR, node2), "the leaves of nested conditional expressions are all collected")
+            else:
+                col.bad("C07.INFER-COLLECT", keyn, repo.loc(VISITOR, node2), f"`return 1 if a else ('x' if b else 2.5)`: collected {sorted(leaves)}",
+                        f"only the two branches of the outermost conditional expression are inferred: `return 1 if a else (\"x\" if b else 2.5)` collects {sorted(leaves)}, the inferred result type does not "
+                        f"cover the values \"x\" and 2.5 the function can return")
         if probs or not n:
             col.bad("C07.INFER-COLLECT", f"{key0}::collect", repo.loc(VISITOR, node), f"{sorted(set(probs))[:3]}",
                     (sorted(set(probs)) or ["no inference call found in the loop"])[0])
